@@ -1,0 +1,14 @@
+//go:build verif
+
+// Contracts for the deductive verification in /verif (comment-only; compiled code is unaffected).
+package syncmap
+
+// C15 rests on PreLock being a real lock: the lock protocol proved on the ruler ("Lock only between PreLock and
+// PostLock") orders all multi-key acquisitions only if PreLock takes, and PostLock releases, the locker-wide mutex.
+// What a sync.Mutex does is outside the technique; that the two functions call it, once, on that mutex is not.
+//@ func (*Service).PreLock
+//@ requires s != nil
+//@ mustcall (*sync.Mutex).Lock on fieldaddr(s, "mapLock") once
+//@ func (*Service).PostLock
+//@ requires s != nil
+//@ mustcall (*sync.Mutex).Unlock on fieldaddr(s, "mapLock") once
